@@ -185,7 +185,8 @@ impl Config {
 
             log!(if neg || pos { Level::Warn } else { Level::Debug },
                  "SOURCE_DATE_EPOCH timestamp: {v} ({})",
-                 Utc.timestamp_opt(v, 0).unwrap());
+                 Utc.timestamp_opt(v, 0).single()
+                     .map_or_else(|| "out of range".to_string(), |t| t.to_string()));
             if neg {
                 warn!("SOURCE_DATE_EPOCH timestamp is negative, ignoring: {v}");
                 source_date_epoch = None;
